@@ -13,6 +13,16 @@ NOT_APPLICABLE = {}
 HOOK_COMMITS = []
 
 PROPS = {
+    'C09': {
+        'scenarios': ['codec'],
+        'corr': ['Corr/Codec'],
+        'case_prefixes': ['cases_codec'],
+        'level': 'proof',
+        'level_text': 'Coq theorems over the byte-level model of data/unmarshal.go + marshal.go + permissions.go: C09_decode_presentation (EVERY presentation: any field order, block sizes unpacked or one packed run, unknown varint/fixed32/fixed64/bytes fields, timestamp sub-presentations, all values up to 2^64-1, decodes to exactly its logical message; presentations without one are rejected), C09_decode_encode, C09_reference_reads_ours, C09_reencode, C09_permissions_spec, C09_perm_roundtrip; varint round trip incl. the 10-byte overflow rule proved by induction. Tied to the code by running DecodeUnixFSData/DecodeUnixTime/DecodeUnixFSMetadata/Encode*/Permissions and the model on the same 2100 (quick) wire inputs incl. a malformed stream, plus gogo-protobuf as reference oracle.',
+        'level_note': 'theorems are about the hand-written model (Codec/*.v); correspondence + gogo oracle tie it to the Go code on every run. Proved for minimal-length varints and non-group unknown fields; non-minimal varints, groups and Metadata are covered by the correspondence/oracle only (partial_clauses).',
+        'assumptions': ['qp.BuildMap turns assembler panics (repeated key, missing required field) into errors', 'gogo-protobuf Unmarshal of boxo unixfs_pb is the reference reading'],
+        'partial_clauses': ['non-minimal (padded) varints: sampled', 'unknown group fields: sampled', 'UnixFSMetadata: sampled'],
+    },
     'C15': {
         'scenarios': ['dirs'],
         'corr': ['Corr/Dirs'],
